@@ -2,13 +2,20 @@
 
 use crate::common::{Args, Report};
 
+pub mod c04;
 pub mod c19;
 pub mod c20;
+pub mod demo;
+pub mod gen;
+pub mod monitors;
 
 pub fn run(args: &Args, r: &mut Report) -> bool {
     match args.prop.as_str() {
+        "C04" => c04::run(args, r),
         "C19" => c19::run(args, r),
         "C20" => c20::run(args, r),
+        "DEMO" => demo::run(args, r),
+        "NOOP" => {}
         _ => return false,
     }
     true
